@@ -19,7 +19,7 @@ PROPS["C17"] = {
                   "the clauses are also evaluated directly on the implementation's outputs.",
     "level_note": "Trusted: Lean kernel (+ propext, Quot.sound), the harness and printer, rustc; overflow behaviour as in the dev profile. "
                   "The u64 machine model is proved equal to the Nat model for step + 30 <= 2^64.",
-    "harness": [("hcore", "c17")],
+    "harness": [("harness", "c17")],
     "anchors": ["mithril-common/src/entities/signed_entity_config.rs", "mithril-common/src/entities/block_range.rs",
                 "mithril-common/src/entities/block_number.rs", "mithril-common/src/entities/signed_entity_type.rs",
                 "mithril-common/src/entities/epoch.rs", "mithril-common/src/entities/arithmetic_operation_wrapper.rs"],
@@ -45,7 +45,7 @@ PROPS["C18"] = {
     "level_note": "Trusted: Lean kernel, harness; atomicity of each public call with respect to the queue is read from the lock "
                   "structure of resource_pool.rs (one critical section per call after the fix commits), not verified; Condvar/OS "
                   "scheduling is outside the model.",
-    "harness": [("hcore", "c18")],
+    "harness": [("harness", "c18")],
     "anchors": ["internal/mithril-resource-pool/src/resource_pool.rs", "mithril-aggregator/src/services/prover.rs",
                 "mithril-aggregator/src/services/prover_legacy.rs"],
     "rule": "case = (pool size, initial content, sequence of API calls by logical users: acquire, explicit give-back, drop, "
@@ -75,7 +75,7 @@ PROPS["C08"] = {
     "level_note": "Trusted: Lean kernel + Mathlib (propext, Classical.choice, Quot.sound); f64::ln is an input of the model (its bits "
                   "come from the Rust side); num-bigint/num-rational are modelled by Lean Int/Rat; monotonicity in stake is "
                   "checked on generated pairs, not proved (goal listed).",
-    "harness": [("hcore", "c08")],
+    "harness": [("harness", "c08")],
     "anchors": ["mithril-stm/src/proof_system/concatenation/eligibility.rs"],
     "rule": "case = (phi_f bits, ln bits, 512-bit draw, stake, total): 20 phi_f values incl. next-after-0 and 1-2^-53, totals up to 2^64-1, "
             "stakes {0,1,t/3,t/2,t-1,t,random}, draws uniform / 0 / 2^512-1 / threshold*(1 +- 2^-j) with the threshold from a 1200-bit "
@@ -86,3 +86,12 @@ PROPS["C08"] = {
     "goals_not_proved": ["C08_mono_stake (monotone in stake): checked by S on generated pairs only",
                          "exactness for 3/2 < x <= 2.65: judged against the 900-bit reference only"],
 }
+
+
+# property configurations contributed as separate files: props.d/Cxx.py defines `CONFIG = {...}`
+import glob as _glob, os as _os, importlib.util as _ilu
+for _f in sorted(_glob.glob(_os.path.join(_os.path.dirname(_os.path.abspath(__file__)), "props.d", "C*.py"))):
+    _spec = _ilu.spec_from_file_location("props_" + _os.path.basename(_f)[:-3], _f)
+    _m = _ilu.module_from_spec(_spec)
+    _spec.loader.exec_module(_m)
+    PROPS[_os.path.basename(_f)[:-3]] = _m.CONFIG
